@@ -37,8 +37,9 @@ NW = max(2, min(6, NCPU))
 
 
 def consts(**kw) -> dict:
-    c = dict(Proc=["p1", "p2"], Seed=[0, 1], Sig=["s1", "s2"], Route=[0, 1], Opt=["o1"], Vis=["v1"], Hid=["h1"],
-             Flag=[], MaxObjs=1, MaxEvents=6, Record=False, Leak="none", Lossy=False, DropPos=False)
+    c = dict(Proc=["p1", "p2"], Seed=[0, 1], Conf=["none"], Sig=["s1", "s2"], Route=[0, 1], Opt=["o1"], Vis=["v1"],
+             Hid=["h1"], Flag=[], MaxObjs=1, MaxEvents=6, Record=False, Leak="none", Lossy=False, DropPos=False,
+             IgnoreConf=False)
     c.update(kw)
     return c
 
@@ -141,7 +142,7 @@ def simulate_histories(name, c, n, depth, seed, timeout=900):
 
 
 def prefixes(life):
-    return [{"seed": life["seed"], "events": life["events"][:k]} for k in range(1, len(life["events"]) + 1)]
+    return [dict(life, events=life["events"][:k]) for k in range(1, len(life["events"]) + 1)]
 
 
 def recipe_of(req: dict) -> dict:
@@ -155,6 +156,8 @@ def recipe_of(req: dict) -> dict:
         pts = req["vis"] + ("" if hid == "none" else "+" + hid)
     elif t == "expr_int":
         pts = "int12" + ("" if req["hid"] == "none" else "+" + req["hid"])
+    elif t == "expr_two_mesh":
+        pts = "tri6" + ("" if req["hid"] == "none" else "+" + req["hid"])
     return {"tmpl": t, "n": req["n"], "pts": pts, "opt": req["opt"], "flag": req["flag"]}
 
 
@@ -176,7 +179,7 @@ def lives_of(hist) -> list[dict]:
     for e in hist:
         p = e["proc"]
         if e["act"] == "Spawn":
-            cur[p] = {"seed": e["seed"], "events": []}
+            cur[p] = {"seed": e["seed"], "conf": e.get("conf", "none"), "events": []}
             out.append(cur[p])
         elif e["act"] == "Exit":
             cur.pop(p, None)
@@ -186,7 +189,7 @@ def lives_of(hist) -> list[dict]:
 
 
 def life_key(life) -> str:
-    return json.dumps([life["seed"], life["events"]], sort_keys=True)
+    return json.dumps([life["seed"], life.get("conf", "none"), life["events"]], sort_keys=True)
 
 
 def dedupe(lives):
@@ -202,10 +205,16 @@ def dedupe(lives):
 # -- what a life exercises -----------------------------------------------------
 
 
-def subject(e):
+def request_key(recipe, conf):
+    """What is compiled with which options (the call's merged over the process' option files)."""
+    return json.dumps([{k: v for k, v in recipe.items() if k != "opt"}, meta.effective_options(conf, recipe["opt"])],
+                      sort_keys=True)
+
+
+def subject(e, conf="none"):
     if e["act"] == "Generate":
-        return ("G", e["tmpl"], e["opt"])
-    return ("N", json.dumps(e["recipe"], sort_keys=True))
+        return ("G", e["tmpl"], e["opt"]) if conf == "none" else ("G", e["tmpl"], e["opt"], conf)
+    return ("N", json.dumps(e["recipe"], sort_keys=True), conf)
 
 
 def contexts(life):
@@ -218,8 +227,9 @@ def contexts(life):
             if e["kind"] == "form":
                 comp.append(("J",))
             continue
-        sub = subject(e)
-        out.append((i, sub, {"seed": life["seed"], "junk": sorted(set(junk)), "ncompiled": len(comp),
+        sub = subject(e, life.get("conf", "none"))
+        out.append((i, sub, {"seed": life["seed"], "conf": life.get("conf", "none"), "junk": sorted(set(junk)),
+                             "ncompiled": len(comp),
                              "repeat": sub in comp, "route": e.get("route", 0),
                              "after": sorted({c[1] for c in comp if len(c) > 1})[:6]}))
         comp.append(sub)
@@ -230,6 +240,7 @@ def items_of(life):
     s = set()
     for _, sub, cx in contexts(life):
         plain = not cx["junk"] and not cx["ncompiled"] and not cx["route"]
+        s.add(("sub", sub))
         if plain and cx["seed"] == 0:
             s.add(("base", sub, 0))
         s.add(("seed", sub, cx["seed"]))
@@ -261,18 +272,21 @@ def cost_of(life) -> float:
 
 def select(lives, budget, must=()):
     """Greedy cover (lazy evaluation): most new (subject, context) items per cost until the budget is spent."""
+    def worth(items):          # making a subject at all counts more than one more context of it
+        return sum(8 if it[0] == "sub" else 1 for it in items)
+
     pool = [(x, items_of(x), cost_of(x)) for x in lives]
     chosen, seen, spent = [], set(), 0.0
     for x in must:
         chosen.append(x)
         seen |= items_of(x)
         spent += cost_of(x)
-    heap = [(-len(it) / c, i) for i, (_, it, c) in enumerate(pool)]
+    heap = [(-worth(it) / c, i) for i, (_, it, c) in enumerate(pool)]
     heapq.heapify(heap)
     while heap and spent < budget:
         neg, i = heapq.heappop(heap)
         x, it, c = pool[i]
-        gain = len(it - seen) / c
+        gain = worth(it - seen) / c
         if gain <= 0:
             continue
         if heap and gain < -heap[0][0] - 1e-12:
@@ -319,8 +333,8 @@ def run_lives(lives, fresh: set[int], tag="lives"):
     def one(t):
         n, (s, ids, zyg, _) = t
         jf, of = d / f"job{n}.json", d / f"out{n}.json"
-        jobs = [{"pid": f"L{i}", "seed": s, "texts": str(texts), "tmp": str(d), "events": lives[i]["events"]}
-                for i in ids]
+        jobs = [{"pid": f"L{i}", "seed": s, "conf": lives[i].get("conf", "none"), "texts": str(texts), "tmp": str(d),
+                 "events": lives[i]["events"]} for i in ids]
         jf.write_text(json.dumps({"zygote": zyg, "jobs": jobs}))
         p = subprocess.run([PY, "-m", "harness.histdrv.worker", str(jf), str(of)],
                            env=child_env({"PYTHONHASHSEED": s}), capture_output=True, text=True, timeout=3000)
@@ -342,6 +356,7 @@ def slim(e: dict) -> dict:
     a = e["act"]
     out = {"act": a, "proc": e["proc"], "seed": e["seed"]}
     if a == "Spawn":
+        out["conf"] = e["conf"]
         return out
     out["made"], out["cnt"] = e["made"], e["cnt"]
     if a == "CreateJunk":
@@ -358,7 +373,7 @@ def assemble(lives, recorded):
     """One behaviour: for every life its Spawn, then its events.  Returns (events, index of the life of each)."""
     events, where = [], []
     for i, (life, evs) in enumerate(zip(lives, recorded)):
-        events.append({"act": "Spawn", "proc": f"L{i}", "seed": life["seed"]})
+        events.append({"act": "Spawn", "proc": f"L{i}", "seed": life["seed"], "conf": life.get("conf", "none")})
         where.append((i, -1))
         for j, e in enumerate(evs):
             events.append(e)
@@ -372,7 +387,7 @@ def validate(events, name="trace"):
     f = d / "events.json"
     f.write_text(json.dumps([slim(e) for e in events]))
     c = consts(Proc=sorted({e["proc"] for e in events}), Seed=sorted({e["seed"] for e in events}),
-               MaxEvents=len(events) + 1, Record=False)
+               Conf=sorted({e["conf"] for e in events if e["act"] == "Spawn"}), MaxEvents=len(events) + 1, Record=False)
     text = cfg(c, invs=["Judge"], spec="TSpec")
     r = tlc.run(d, "HistoryTrace", cfg_text=text, workers=1, env={"HIST_FILE": str(f)}, timeout=2400, heap="6g")
     tlc.must_ok(r, f"trace validation {name}")
@@ -417,6 +432,8 @@ def _ctx_of(lives, events, where, line):
 
 def _label(cx1, cx2):
     """Which parts of the hidden state History.tla keeps differ between two observations."""
+    if cx1.get("conf", "none") != cx2.get("conf", "none"):
+        return "conf"
     if cx1.get("id_lex_ok", True) != cx2.get("id_lex_ok", True):
         # the ids of the meshes / constants used sort differently as numbers and as decimal strings in one of the two
         return "id-order"
@@ -443,7 +460,7 @@ def _short(recipe):
 
 
 def _abbrev(life):
-    out = [f"seed={life['seed']}"]
+    out = [f"seed={life['seed']}"] + ([f"conf={life['conf']}"] if life.get("conf", "none") != "none" else [])
     for e in life["events"]:
         if e["act"] == "CreateJunk":
             out.append("junk:" + e["kind"])
@@ -476,10 +493,12 @@ def report(chk, own, lives, events, where, viol, texts):
             what = (f"JIT names for request {_short(e['recipe'])} differ between processes: {f['modname']} "
                     f"{f['objnames']} in {f['proc']} {cf} vs {e['modname']} {e['objnames']} in {e['proc']} {cx}")
         elif prop == "Separating":
-            ra, rb = sorted([f["recipe"], e["recipe"]], key=_short)
-            dif = [f"{k}={ra.get(k)}|{rb.get(k)}" for k in ("tmpl", "n", "pts", "opt", "flag") if ra.get(k) != rb.get(k)]
+            ra, rb = sorted([dict(f["recipe"], conf=f.get("conf", "none")), dict(e["recipe"], conf=e.get("conf", "none"))],
+                            key=lambda r: (_short(r), r["conf"]))
+            dif = [f"{k}={ra.get(k)}|{rb.get(k)}" for k in ("tmpl", "n", "pts", "opt", "flag", "conf") if ra.get(k) != rb.get(k)]
             key = f"collision:{ra['tmpl']}:" + ",".join(dif)
-            what = (f"requests {_short(f['recipe'])} and {_short(e['recipe'])} generate different code "
+            what = (f"requests {_short(f['recipe'])} [option files: {f.get('conf', 'none')}] and {_short(e['recipe'])} "
+                    f"[option files: {e.get('conf', 'none')}] generate different code "
                     f"(class {f['klass'][:12]} vs {e['klass'][:12]}) but share the module name {e['modname']}")
             pay["class_parts"] = [f.get("klass_parts"), e.get("klass_parts")]
             if f.get("klass_parts") and e.get("klass_parts"):
@@ -576,7 +595,7 @@ def execute_and_judge(chk, own, lives, n_fresh, tag):
     for x in lives:
         for e in x["events"]:
             if e["act"] == "Name":
-                k = json.dumps(e["recipe"], sort_keys=True)
+                k = request_key(e["recipe"], x.get("conf", "none"))
                 e["want_class"] = k not in seen_recipes
                 seen_recipes.add(k)
     # truly fresh interpreters: the plain observations first, then a spread of the others
@@ -622,26 +641,42 @@ def run_c12(chk):
     g = consts(Proc=["p1"], Seed=seeds, Sig=tmpl, Route=[0, 1], Opt=opts, Flag=[], Record=True)
     opt2 = ["default", opts[1 + chk.seed % (len(opts) - 1)]]
     sub = tmpl if quick else rnd.sample(tmpl, 24)
-    (h1, r1), (h2, r2), (h3, r3) = run_parallel(jobs + [
+    # groups of templates that share every plausible memo key: all histories [X], [X, Y] over them
+    gg = consts(Proc=["p1"], Seed=[0], Sig=meta.GROUP_TEMPLATES, Route=[0], Opt=["default"], Flag=[], Record=True, MaxEvents=3)
+    (hg, rg), (h1, r1), (h2, r2), (h3, r3) = run_parallel(jobs + [
+        lambda: enumerate_histories("c12-groups", gg),
         lambda: enumerate_histories("c12-enum2", dict(g, Route=[0, 1, 9], MaxEvents=2)),
         lambda: enumerate_histories("c12-enum3", dict(g, Seed=[0], Sig=sub, Opt=opt2, MaxEvents=3)),
         lambda: simulate_histories("c12-sim", dict(g, Proc=["p1", "p2", "p3"]), 240 if quick else 2400,
-                                   36 if quick else 60, chk.seed + 11)])[-3:]
-    cand = dedupe([y for h in h1 + h2 for x in lives_of(h) for y in prefixes(x)] + [x for h in h3 for x in lives_of(h)])
-    chk.add(transitions=r1.generated + r2.generated + r3.generated, states=r1.distinct + r2.distinct,
-            histories_enumerated=len(h1) + len(h2), histories_simulated=len(h3), candidate_lives=len(cand))
+                                   36 if quick else 60, chk.seed + 11)])[-4:]
+    cand = dedupe([y for h in hg + h1 + h2 for x in lives_of(h) for y in prefixes(x)] + [x for h in h3 for x in lives_of(h)])
+    chk.add(transitions=rg.generated + r1.generated + r2.generated + r3.generated, states=rg.distinct + r1.distinct + r2.distinct,
+            histories_enumerated=len(hg) + len(h1) + len(h2), histories_simulated=len(h3), candidate_lives=len(cand))
     def gen0(e, opt=None):
         return e["act"] == "Generate" and e["route"] == 0 and (opt is None or e["opt"] == opt)
 
     # the plain observation of every (template, options); and for every template one that differs from it in the
     # hash seed alone and one that differs in UFL's counters alone (so a rejected write names its cause)
-    must = [x for x in cand if len(x["events"]) == 1 and gen0(x["events"][0]) and x["seed"] == 0]
+    must = [x for x in cand if len(x["events"]) == 1 and gen0(x["events"][0], "default" if quick else None) and x["seed"] == 0]
     must += [x for x in cand if len(x["events"]) == 1 and gen0(x["events"][0], "default") and x["seed"] == seeds[1]]
-    must += [x for x in cand if len(x["events"]) == 2 and x["seed"] == 0 and x["events"][0] == {"act": "CreateJunk", "kind": "mesh"}
-             and gen0(x["events"][1], "default")]
+    if not quick:
+        must += [x for x in cand if len(x["events"]) == 2 and x["seed"] == 0
+                 and x["events"][0] == {"act": "CreateJunk", "kind": "mesh"} and gen0(x["events"][1], "default")]
     must += [x for x in cand if len(x["events"]) == 1 and x["seed"] == 0 and x["events"][0]["act"] == "Generate"
              and x["events"][0]["route"] == 9 and x["events"][0]["opt"] == "default"]
-    lives, seen, spent = select(cand, 55 if quick else 1200, must)
+    # "B after A in one process" against "B alone" for every ordered pair of a group (thorough: of all group templates)
+    group_of = {t: g_ for g_, ts in meta.GROUPS.items() for t in ts}
+    npairs = 0
+    for x in cand:
+        ev = x["events"]
+        if x["seed"] == 0 and all(e["act"] == "Generate" and e["tmpl"] in group_of for e in ev):
+            if len(ev) == 1 or (len(ev) == 2 and ev[0]["tmpl"] != ev[1]["tmpl"]
+                                and (not quick or group_of[ev[0]["tmpl"]] == group_of[ev[1]["tmpl"]])):
+                if all(gen0(e, "default") for e in ev):
+                    must.append(x)
+                    npairs += len(ev) == 2
+    chk.add(memo_group_ordered_pairs=npairs)
+    lives, seen, spent = select(cand, sum(map(cost_of, dedupe(must))) + (24 if quick else 700), must)
     chk.add(context_items_covered=len(seen))
     lives, events, where, viol = execute_and_judge(chk, "C12", lives, 24 if quick else 200, "c12")
     _evidence(chk, lives, events, "Generate")
@@ -688,6 +723,13 @@ def c13_axes(quick):
         "options": dict(Sig=forms + ["expr_tri"], Vis=["tri6"], Hid=["none"], Opt=list(meta.OPTS), Flag=["O2"], MaxObjs=1),
         "flags": dict(Sig=["mass_lit2", "expr_tri"] if quick else ["mass_lit2", "two_forms", "expr_tri"], Vis=["tri6"],
                       Hid=["none"], Opt=["default"] if quick else ["default", "float32"], Flag=list(meta.FLAGS), MaxObjs=1),
+        # the option files a process finds, for both entry points (forms and expressions)
+        "conf": dict(Sig=(["mass_lit2", "two_forms", "expr_tri"] if quick else ["mass_lit2", "two_forms", "stokes", "expr_tri",
+                                                                                "expr_two_mesh"]),
+                     Vis=["tri6"], Hid=["none"], Opt=["default", "float32"] if quick else ["default", "float32", "epsilon"],
+                     Flag=["O2"], MaxObjs=1, Conf=list(meta.CONF)[:6] if quick else list(meta.CONF)),
+        # objects living on two meshes: named under every seed and with several id offsets (routes)
+        "twomesh": dict(Sig=meta.REQ_TWO_MESH, Vis=["tri6"], Hid=["none"], Opt=["default"], Flag=["O2"], MaxObjs=1),
         "listing": dict(Sig=(some if quick else forms) + ["expr_tri"], Vis=["tri6", "tri6_dyadic"], Hid=["none", "eps"],
                         Opt=["default"] if quick else ["default", "complex128"], Flag=["O2"] if quick else ["O2", "none"],
                         MaxObjs=2),
@@ -697,36 +739,46 @@ def c13_axes(quick):
 def run_c13(chk):
     quick = chk.tier == "quick"
     seeds = seeds_for(chk, 1 if quick else 4)
-    base = consts(Sig=["s1"], Route=[0] if quick else [0, 1], Opt=["o1"], Vis=["v1", "v2"],
+    base = consts(Sig=["s1"], Route=[0] if quick else [0, 1], Opt=["o1"], Vis=["v1", "v2"], Conf=["none", "pwd"],
                   Hid=["h1", "h2"], Flag=["f1"] if quick else ["f1", "f2"], MaxObjs=2, MaxEvents=4)
-    small = dict(base, Opt=["o1"], Flag=["f1"], Route=[0], MaxEvents=4)
+    small = dict(base, Opt=["o1"], Flag=["f1"], Route=[0], Conf=["none"], MaxEvents=4)
     jobs0 = ([
         lambda: design_must_hold(chk, "c13-design", base),
         lambda: design_must_hold(chk, "c13-vacuity", dict(small, MaxEvents=3), coverage=True),
         lambda: control_must_fail(chk, "c13-lossy", dict(small, Lossy=True), "Separating"),
         lambda: control_must_fail(chk, "c13-droppos", dict(small, DropPos=True), "DistinctObjects"),
         lambda: control_must_fail(chk, "c13-leak-seed", dict(small, Leak="seed"), "Stable"),
-        lambda: control_must_fail(chk, "c13-leak-counter", dict(small, Leak="counter"), "Stable")])
+        lambda: control_must_fail(chk, "c13-leak-counter", dict(small, Leak="counter"), "Stable"),
+        lambda: control_must_fail(chk, "c13-ignoreconf", dict(small, Conf=["none", "pwd"], IgnoreConf=True), "Separating")])
     # spec -> code: the request algebra, axis by axis (exhaustive), then long random histories over each axis ---------
     ax = c13_axes(quick)
     jobs = []
     for i, (name, a) in enumerate(ax.items()):
         g = consts(Proc=["p1"], Seed=[0], Route=[0], Record=True, **a)
+        if name == "twomesh":
+            g = dict(g, Seed=seeds, Route=[0, 1, 9])
         jobs.append(lambda g=g, name=name: enumerate_histories(f"c13-enum-{name}", dict(g, MaxEvents=2)))
-        gs = dict(g, Proc=["p1", "p2", "p3"], Seed=seeds, Route=[0, 1])
+        # (one long-lived process per behaviour on the conf axis: the option files are fixed at Spawn)
+        gs = dict(g, Proc=["p1"] if name == "conf" else ["p1", "p2", "p3"], Seed=seeds, Route=[0, 1])
         jobs.append(lambda gs=gs, name=name, i=i: simulate_histories(
             f"c13-sim-{name}", gs, 60 if quick else 500, 40 if quick else 60, chk.seed + 31 + i))
     res = run_parallel(jobs0 + jobs)[len(jobs0):]
     enum = dedupe([x for (h, _) in res[0::2] for hh in h for x in lives_of(hh)])    # depth 2: Spawn + one event
     sim = dedupe([x for (h, _) in res[1::2] for hh in h for x in lives_of(hh)])
-    single = {json.dumps(x["events"][0]["recipe"], sort_keys=True): x for x in enum if x["events"][0]["act"] == "Name"}
+    single = {}
+    for x in enum:
+        e = x["events"][0]
+        if e["act"] == "Name" and x["seed"] == 0 and e["route"] == 0:
+            single[subject(e, x.get("conf", "none"))] = x
     recipes = set(single)
+    must = [x for x in enum if x["events"][0]["act"] == "Name" and x["events"][0]["recipe"]["tmpl"] in meta.REQ_TWO_MESH
+            and (x["seed"] == 0 or x["events"][0]["route"] == 0)]
     chk.add(transitions=sum(r.generated for _, r in res), states=sum(r.distinct for _, r in res[0::2]),
             requests_in_algebra=len(recipes), histories_simulated=sum(len(h) for h, _ in res[1::2]),
             candidate_lives=len(enum) + len(sim))
-    lives, seen, spent = select(enum + sim, 60 if quick else 600)
-    # every request of the algebra is made at least once
-    have = {sub[1] for x in lives for _, sub, _ in contexts(x) if sub[0] == "N"}
+    lives, seen, spent = select(enum + sim, 50 if quick else 550, must)
+    # every request of the algebra is made at least once (under every option-file variant of the conf axis)
+    have = {sub for x in lives for _, sub, _ in contexts(x) if sub[0] == "N"}
     lives += [single[k] for k in sorted(recipes - have)]
     chk.add(context_items_covered=len(seen), requests_only_made_alone=len(recipes - have))
     lives, events, where, viol = execute_and_judge(chk, "C13", lives, 24 if quick else 150, "c13")
